@@ -140,7 +140,64 @@ def cat(tier):
 
 
 def units(tier):
-    return list(range(len(cat(tier))))
+    return list(range(len(cat(tier)))) + ['shared-cycle']
+
+
+def shared_cycle_unit(res, tier):
+    """self-referential documents whose levels are shared: level i = [level i+1, *level i+1], the last entry of the root is
+    an alias to the root.  There is no expansion to wait for: the load must end in an error promptly."""
+    import signal
+
+    class Timeout(BaseException):
+        pass
+
+    def on_alarm(signum, frame):
+        raise Timeout()
+    case = loadcase.Case({'classes': catalog.BASE, 'root': 'any'})
+    for depth in ((4, 10, 16, 22, 30) if tier == 'quick' else (4, 10, 16, 22, 30, 40, 60)):
+        for kind in ('seq', 'map'):
+            inner = yaml.SequenceNode(models.P + 'seq', [yaml.ScalarNode(models.P + 'str', 'x')])
+            node = inner
+            for i in range(depth):
+                if kind == 'seq':
+                    node = yaml.SequenceNode(models.P + 'seq', [node, node])
+                else:
+                    node = yaml.MappingNode(models.P + 'map', [(yaml.ScalarNode(models.P + 'str', 'a'), node),
+                                                               (yaml.ScalarNode(models.P + 'str', 'b'), node)])
+            # the cycle comes LAST in document order (the last entry of the root is the root itself), so a checker
+            # that re-walks shared levels meets it only after 2^depth steps
+            if kind == 'seq':
+                node.value.append(node)
+            else:
+                node.value.append((yaml.ScalarNode(models.P + 'str', 'c'), node))
+            text = case.R.serialize(node)
+            res.states += 1
+            res.transitions += 1
+            res.traces += 1
+            res.nontrivial += 1
+            old = signal.signal(signal.SIGALRM, on_alarm)
+            signal.alarm(20)
+            try:
+                o = case.impl(text)
+                timed_out = False
+            except Timeout:
+                o, timed_out = None, True
+            finally:
+                signal.alarm(0)
+                signal.signal(signal.SIGALRM, old)
+            pl = loadcase.payload(case.spec, text, kind='shared-cycle', depth=depth)
+            if timed_out:
+                res.violation('C18:cycle:hang', 'self-referential document with %d shared levels (%d characters) was not rejected within 20 s' % (
+                    depth, len(text)), pl)
+            elif o[0] in ('rej', 'yamlerr'):
+                res.hist['cycle:rejected'] += 1
+                res.hist['shared-cycle:rejected'] += 1
+            elif o[0] == 'ok':
+                res.violation('C18:cycle:value', 'self-referential document (%d shared levels) was loaded' % depth, pl)
+            elif isinstance(o[1], (RecursionError, MemoryError)):
+                res.violation('C18:cycle:%s' % type(o[1]).__name__, 'self-referential document (%d shared levels): %s' % (depth, describe(o)), pl)
+            else:
+                res.hist['cycle:other-exception'] += 1
 
 
 # ---------------------------------------------------------------- sharing
@@ -274,6 +331,9 @@ def where(spec, tree, groups):
 
 def run_unit(unit, tier):
     res = core.Result()
+    if unit == 'shared-cycle':
+        shared_cycle_unit(res, tier)
+        return res
     fam, spec = cat(tier)[unit]
     case = loadcase.Case(spec)
     names = [c.__name__ for c in case.b.registered if c.__name__ in ('K', 'In', 'C1')]
@@ -378,6 +438,10 @@ def finish(total, tier):
 
 def replay(payload):
     case = loadcase.Case(payload['spec'])
+    if payload['kind'] == 'shared-cycle':
+        res = core.Result()
+        shared_cycle_unit(res, 'quick')
+        return bool(res.violations), (res.violations[0]['what'] if res.violations else 'shared cyclic documents are rejected promptly')
     if payload['kind'] == 'cycle-stream':
         o = case.impl_stream(payload['text'])
         viol = o[0] == 'ok' or (o[0] == 'exc' and isinstance(o[1], (RecursionError, MemoryError)))
